@@ -96,17 +96,43 @@ def main(argv=None):
             jobs.append((c.id, i, tier, seed, limit))
     from pv.jobs import run_job
     results = []
-    if a.j <= 1 or len(jobs) == 1:
-        for j in jobs:
-            results.append(run_job(j))
+
+    def show(r):
+        if a.v:
+            print('  job %s[%s] paths=%d open=%d pending=%d err=%s %.1fs' % (r['contract'], cfg_str(r.get('cfg', {})), r['paths'],
+                  len(r['obligs']), len(r.get('pending', [])), r['engine_error'], r['wall_s']), flush=True)
+    if a.j <= 1:
+        queue = list(jobs)
+        while queue:
+            j = queue.pop(0)
+            r = run_job(j)
+            results.append(r)
+            show(r)
+            for pfx in r.get('pending', []):
+                queue.append(tuple(j[:5]) + ([pfx],))
     else:
+        # dynamic scheduling: a job that runs longer than its slice hands unexplored path prefixes back, which are
+        # queued as new jobs (paths are independent given their decision prefix)
         ctxm = mp.get_context('fork')
-        with ctxm.Pool(min(a.j, len(jobs)), maxtasksperchild=40) as pool:
-            for r in pool.imap_unordered(run_job, jobs, chunksize=1):
-                results.append(r)
-                if a.v:
-                    print('  job %s[%s] paths=%d open=%d err=%s %.1fs' % (r['contract'], cfg_str(r.get('cfg', {})), r['paths'],
-                                                                         len(r['obligs']), r['engine_error'], r['wall_s']), flush=True)
+        with ctxm.Pool(a.j, maxtasksperchild=40) as pool:
+            inflight = [(j, pool.apply_async(run_job, (j,))) for j in jobs]
+            while inflight:
+                nxt = []
+                progressed = False
+                for j, ar in inflight:
+                    if ar.ready():
+                        progressed = True
+                        r = ar.get()
+                        results.append(r)
+                        show(r)
+                        for pfx in r.get('pending', []):
+                            nj = tuple(j[:5]) + ([pfx],)
+                            nxt.append((nj, pool.apply_async(run_job, (nj,))))
+                    else:
+                        nxt.append((j, ar))
+                inflight = nxt
+                if not progressed:
+                    time.sleep(0.05)
     return report(prop, tier, seed, reg, cs, jobs, results, t0, a)
 
 
